@@ -10,7 +10,7 @@ PY = '/venv/bin/python'
 CHECKS = {
     'C01': ('DESIGN.md 4/C01',
             'deviation-bounded enumeration of model/configuration points; each generated shell is compiled against a mock Dezyne runtime and an auto-generated driver enumerates every (port, event, argument position) in both travel directions inside the compiled program',
-            'Every point within 1 (quick) / 2 (thorough) deviations of the base point AND of the multi-client base point in a 24-dimensional model space (ports 0-3 per direction sharing one interface / none / first-and-third only, 0/1/3 injected ports, namespaces incl. nested/shadowing/repeated names, interface placement and spelling, event menu (16 events, up to 4 formals, long names) and declaration order, per-interface externs, value- and reference-typed externs, identifier shapes incl. Python keywords and 45-character names, semantics, origin, multi-client variants incl. an interface with only claim/release, prefix, system/component), plus the cross products semantics x origin and event-menu x semantics x origin and name-relation corner points (134 / ~1480 programs). Per program every event is fired twice (declaration order, then reverse) with pairwise distinct - and same-typed - argument values while recorders sit on all events of all ports: exactly one hit on the same-named event of the same-named port; arguments, reply, out and inout values intact; REENTRANT: every inbound event handled by a component that raises an outbound event of the same port from inside the handler; out-events of the multi-client port reach the holder; under AddressSanitizer.',
+            'Every point within 1 (quick) / 2 (thorough) deviations of the base point AND of the multi-client base point in a 26-dimensional model space (externs spelled as identifier chains or exotically - template with comma and blank, function signature in parentheses, leading '::' and negative template argument, 'const struct X &' -, generated code compiled -O0 or -O2 -DNDEBUG, ports 0-3 per direction sharing one interface / none / first-and-third only, 0/1/3 injected ports, namespaces incl. nested/shadowing/repeated names, interface placement and spelling, event menu (16 events, up to 4 formals, long names) and declaration order, per-interface externs, value- and reference-typed externs, identifier shapes incl. Python keywords and 45-character names, semantics, origin, multi-client variants incl. an interface with only claim/release, prefix, system/component), plus the cross products semantics x origin and event-menu x semantics x origin and name-relation corner points (134 / ~1480 programs). Per program every event is fired twice (declaration order, then reverse) with pairwise distinct - and same-typed - argument values while recorders sit on all events of all ports: exactly one hit on the same-named event of the same-named port; arguments, reply, out and inout values intact; REENTRANT: every inbound event handled by a component that raises an outbound event of the same port from inside the handler; out-events of the multi-client port reach the holder; under AddressSanitizer.',
             'Trusted: mock dzn:: runtime (vf/cxx/mock), mock dzn-code header generator (modelgen), driver generator (lab.py), g++ 12. Model space bounds: <=3 ports per direction, extern-typed formals.'),
     'C02': ('DESIGN.md 4/C02',
             'same compiled programs as C01; dispatcher involvement measured on a deterministic step pump (posted counter, in-dispatch flag, deferred queueing with overwritten arguments and scrubbed stack, ASan use-after-return)',
@@ -18,7 +18,7 @@ CHECKS = {
             'Trusted: as C01. "Blocks the caller until the dispatcher has run it" is additionally explored under the scheduler in C11.'),
     'C04': ('DESIGN.md 4/C04',
             'explicit-state exploration of multi-client histories inside the compiled program: every claim/release/other history replayed on a fresh shell with an out-event probe after each operation; un-pruned sweep + BFS pruned on (reference state, probe)',
-            'All multi-client points of the lab space (naming variants incl. claim named Release and Python keywords, every granting value of a 4-field enum, claim/release signatures none/(in,out)/(inout), release declared before claim, an interface with nothing but claim/release/one out-event, multi-client port first/second/middle, namespaces, per-interface externs...) x 1..2 / 1..3 registered clients (identifiers related by prefix and case) x ALL histories over {claim(c) answered with every enum value, release(c), other in-events(c)} to depth 3 / 4 un-pruned, each replayed on a fresh shell with an out-event probe after every operation, plus BFS pruned on (reference state, probe) to depth 6 / 8; plus, to depth 2, every other registration ORDER of the clients and the alphabet extended with operations during which the component raises an out-event from inside the handler; three-valued reference model.',
+            'All multi-client points of the lab space (naming variants incl. claim named Release and Python keywords, every granting value of a 4-field enum, claim/release signatures none/(in,out)/(inout), release declared before claim, an interface with nothing but claim/release/one out-event, multi-client port first/second/middle, namespaces, per-interface externs...) x 1..2 / 1..3 registered clients (identifiers related by prefix and case) x ALL histories over {claim(c) answered with every enum value, release(c), other in-events(c)} to depth 3 / 4 un-pruned, each replayed on a fresh shell with an out-event probe after every operation, plus BFS pruned on (reference state, probe) to depth 6 / 8; plus, to depth 2, every other registration ORDER of the clients and the alphabet extended with operations during which the component raises an out-event from inside the handler; many clients (5..33 long identifiers with a common prefix; 8/12/20 short identifiers mixing numeric strings of different lengths with alphanumeric ones) in 2..6 registration orders, every client claiming, served and releasing in turn, and in the multi-client base point EVERY registration order of 6 / 8 identifiers (720 / 40 320 shells); three-valued reference model.',
             'Trusted: as C01 plus the reference model in gen_c04 (vf/lab.py). Situations with two simultaneous holders are accepted under any of three readings of the statement.'),
     'C06': ('DESIGN.md 4/C06',
             'BFS over inclusion states (sets of already included headers) of the returned headers, each transition one translation unit through g++ (clang++ in thorough); plus second-TU link/run and multi-prefix link',
@@ -29,8 +29,8 @@ CHECKS = {
             "Same programs as C01 x the shell constructed for every subset of {dispatcher, runtime, unrelated service} in the user locator (8, all in one process) x both origins incl. every STS/MTS assignment: throw verdict, locator / dispatcher / runtime identity seen by the component in its constructor, exact locator content, user locator unmodified, Locator() accessor present/absent; -Wreorder findings on facility members; plus, on 8 points, a create shell and an import shell of the same encapsulee linked into ONE program and chained (import fed with the create shell's locator), each applying the check of its own origin.",
             'Trusted: as C01. The mock component reads its locator in the constructor like real Dezyne components.'),
     'C10': ('DESIGN.md 4/C10',
-            'same compiled programs as C01; fault enumeration inside the program: every single binding left out one at a time on a fresh shell',
-            'Same programs as C01 x every event the user or the wrapped component must bind left out one at a time on a fresh shell (multi-client: x 0..4 registered clients): FinalConstruct must throw a runtime_error - and throw again when retried; fully bound must return and record the parent (also the default nullptr); registration after final construction must throw - six attempts with identifiers sorting before / between / after the registered ones, after which the identifier list is unchanged.',
+            'same compiled programs as C01; fault enumeration inside the program: every single binding left out one at a time on a fresh shell; explicit-state exploration of bind / unbind / FinalConstruct histories replayed on fresh shells',
+            'Same programs as C01 x every event the user or the wrapped component must bind left out one at a time on a fresh shell (multi-client: x 0..4 registered clients): FinalConstruct must throw a runtime_error - and throw again when retried; fully bound must return and record the parent (also the default nullptr); registration after final construction must throw - six attempts with identifiers sorting before / between / after the registered ones, after which the identifier list is unchanged; HISTORIES: every sequence of unbind(k) / bind(k) / FinalConstruct to depth 5 / 7 over three representative bindings (first, last, a registered client's out-event), each replayed on a fresh shell against the reference state (set of unbound bindings): until it has succeeded once, final construction fails iff something is unbound.',
             'Trusted: as C01; binding_error derives from std::runtime_error as in the Dezyne runtime.'),
     'C03': ('DESIGN.md 4/C03',
             'exhaustive enumeration of selection pairs x port sets per side, each run through PortsSemanticsCfg.match and end-to-end through Builder.build, judged by a reference resolver',
@@ -50,7 +50,7 @@ CHECKS = {
             'Seam covers iteration over sets of port names; anything else nondeterministic is caught only by the real-seed child runs (demonstrated with a hash()-ordering mutant).'),
     'C11': ('DESIGN.md 4/C11',
             'stateless model checking of the compiled generated code: DFS over all thread schedules under a cooperative scheduler with link-time interposed pthread mutexes and reader/writer locks, iterative preemption bounding, deadlock detection; plus a separate free-running ThreadSanitizer pass (a run whose threads all block is reported as a hang)',
-            'H1 (MutexWrapped, 2-3 threads, every release-mode assignment) complete for 2 threads and bound 2 for 3 (thorough: complete); H2 (multi-client shell, legal arbiter, dispatcher, 2-3 clients, environment events) around a shell that creates AND around one that imports its facilities, at the bounds listed per experiment in the evidence (quick ~100 000 schedules; thorough ~4.4 million: 2 clients unbounded, 3 clients bound 1); monitor on every out-event; TSan pass of the same bodies.',
+            'H1 (MutexWrapped, 2-3 threads, every release-mode assignment) complete for 2 threads and bound 2 for 3 (thorough: complete); H2 (multi-client shell, legal arbiter, dispatcher, 2-3 clients, environment events) around a shell that creates AND around one that imports its facilities, at the bounds listed per experiment in the evidence (quick ~100 000 schedules; thorough ~4.4 million: 2 clients unbounded, 3 clients bound 1); the harnesses also built the way a release configuration compiles the generated code (-O2 -DNDEBUG); monitor on every out-event; TSan pass of the same bodies.',
             'Trusted: vf/cxx/sched.hh + interposer, scheduled mock pump, libstdc++ mapping std::mutex to pthread_mutex_*. Memory-model effects below synchronisation operations only via TSan.'),
     'C12': ('DESIGN.md 4/C12',
             'explicit-state exploration of build histories on shared input objects, replayed on fresh objects; un-pruned sweep + BFS pruned on a canonical deep snapshot incl. all module-level state',
@@ -58,11 +58,11 @@ CHECKS = {
             'Trusted: vf/snapshot.py. Pruning argument in the evidence; cross-checked by the un-pruned sweep.'),
     'C19': ('DESIGN.md 4/C19',
             'exhaustive enumeration of comment contents (strings over an alphabet with all line breaks, hostile fragments, content trees) rendered by the real Comment and by the real Builder',
-            'Comment contents: every string of <=3 symbols over an alphabet with all Python line breaks, 60 hostile fragments, every content tree of <=3 (quick) / <=4 (thorough) nodes: rendering split at the union of Python and C++ line terminators yields only // lines carrying the text; rendering is repeatable, survives every mutator (append, +=, trim, lines setter/extend, set_indentor) and (deep) copies; in generated files (4 models x copyright / creator_info x hostile fragments) only comment lines change and no comment splices into code.',
+            'Comment contents: every string of <=3 symbols over an alphabet with all Python line breaks, 60 hostile fragments, every content tree of <=3 (quick) / <=4 (thorough) nodes: rendering split at the union of Python and C++ line terminators yields only // lines carrying the text; rendering is repeatable, survives every mutator (append, +=, trim, lines setter/extend, set_indentor) and (deep) copies; in generated files (4 models x copyright / creator_info x hostile fragments) only comment lines change and no comment splices into code. FAILURE PATHS: 7 refused extensions (+=, append, +, lines setter; Exception and BaseException; twice) leave the comment a comment with its text, and a later successful extension renders as comment lines.',
             'Trusted: vf/refmodels/text.py and the union splitter in c19.py.'),
     'C20': ('DESIGN.md 4/C20',
             'full product enumeration of building-block descriptions rendered by the real cpp_gen, token streams compared with an independent tokenizer; meaningful subset compiled with g++ -fsyntax-only',
-            '~94 000 descriptions: the full product of Function dimensions, Constructor / Destructor / Namespace / Struct / Class / sections / includes / MemberVariable / Param over 432 type descriptions, the helper creators, object-sharing sequences, contents that are comments / blocks with header / indented or nested blocks, every pattern of present / absent constructor parameters, and observe-change-observe sequences compared with fresh blocks; declaration and definition token streams must equal the expected ones (independent tokenizer); 5 200 meaningful functions composed into structs inside rendered namespaces and syntax-checked by g++; exhaustive, same in both tiers.',
+            '~94 000 descriptions: the full product of Function dimensions, Constructor / Destructor / Namespace / Struct / Class / sections / includes / MemberVariable / Param over 432 type descriptions, the helper creators, object-sharing sequences, contents that are comments / blocks with header / indented or nested blocks, every pattern of present / absent constructor parameters, and observe-change-observe sequences compared with fresh blocks; declaration and definition token streams must equal the expected ones (independent tokenizer); 5 200 meaningful functions composed into structs inside rendered namespaces and syntax-checked by g++; exhaustive, same in both tiers. FAILURE PATHS: block descriptions holding an item that cannot be rendered (Param / Function object raising CppGenError, an object whose __str__ raises) for struct / class / namespace / function / constructor / section, 4 positions, 1-2 failed attempts, then the SAME list repaired in place must render like an equal fresh one and a bystander block is unchanged.',
             'Trusted: the tokenizer and expected-token builders in c20.py; g++ 12.'),
     'C13': ('DESIGN.md 4/C13',
             'deviation-bounded enumeration of model/configuration points x single-fault catalogue, each built by the real Builder (without and with verbose logging) under a CPU-time watchdog, judged by reference validity rules',
@@ -82,11 +82,11 @@ CHECKS = {
             'Trusted: vf/docgen.py. Pruning argument in the evidence assumptions; cross-checked by the un-pruned sweep.'),
     'C17': ('DESIGN.md 4/C17',
             'explicit-state enumeration of all content trees/strings up to a bound, each executed on the real TextBlock, judged by an independent reference flattener',
-            'Every string of <=3 symbols over an alphabet containing all 11 Python line-break sequences, every content tree of <=4 (quick) / <=5 (thorough) nodes over 8 leaves x 4 container kinds, the same container OBJECT at several positions, scalars that look empty (0, 0.0, False) - poured through TextBlock / append / + / += / trim / chunk / cond_chunk / lines setter, also after the block has been observed (string form and lines stay two views of one state), and compared with a reference model written from the statement; exhaustive inside the bound.',
+            'Every string of <=3 symbols over an alphabet containing all 11 Python line-break sequences, every content tree of <=4 (quick) / <=5 (thorough) nodes over 8 leaves x 4 container kinds, the same container OBJECT at several positions, scalars that look empty (0, 0.0, False) - poured through TextBlock / append / + / += / trim / chunk / cond_chunk / lines setter, also after the block has been observed (string form and lines stay two views of one state), and compared with a reference model written from the statement; exhaustive inside the bound. FAILURE PATHS: 7 refused operations (append / += / + / constructor / lines setter / chunk / cond_chunk) x 8 positions of an item whose __str__ raises (Exception and BaseException) x 3 blocks x header: the receiver is unchanged, the next operations are right, the SAME container objects repaired in place flatten like fresh ones.',
             'Trusted: the reference model vf/refmodels/text.py. Open cases of the statement are accepted either way (listed in the evidence assumptions).'),
     'C18': ('DESIGN.md 4/C18',
             'exhaustive product enumeration (line sequences x indenter configurations) on the real Indentizer/TextBlock, judged by a direct specification',
-            'All 400 line sequences x 96 indenter configurations (spaces 0-5 / tab, no bullets / all / first-only, glyphs shorter, equal and longer than the width, factory presets incl. their None argument) through to_list, to_str, TextBlock.indent (header as string / list / TextBlock object that is changed afterwards, explicit / pre-set indentor), repeated indentation incl. a second plain indent(), bare strings and falsy scalars as contents, and list/string agreement on lines containing exotic characters; exhaustive inside the bound, same in both tiers.',
+            'All 400 line sequences x 96 indenter configurations (spaces 0-5 / tab, no bullets / all / first-only, glyphs shorter, equal and longer than the width, factory presets incl. their None argument) through to_list, to_str, TextBlock.indent (header as string / list / TextBlock object that is changed afterwards, explicit / pre-set indentor), repeated indentation incl. a second plain indent(), bare strings and falsy scalars as contents, and list/string agreement on lines containing exotic characters; exhaustive inside the bound, same in both tiers. FAILURE PATHS: a rendering that dies half-way (item whose __str__ raises, 6 positions, 5 call sequences) leaves the same indenter, the same repaired container objects and text blocks rendering like fresh equal ones.',
             'Trusted: the prefix specification in vf/checks/c18.py. Bullet lines may be right-stripped.'),
 }
 
